@@ -50,13 +50,16 @@ Theorem C09_relabelling :
   forall TT TT', Permutation TT TT' ->
     cone0 Rops TT = cone0 Rops TT' /\ (forall i, cone1 Rops i TT = cone1 Rops i TT') /\ (forall i j, cone2 Rops i j TT = cone2 Rops i j TT').
 Proof. exact cone_perm. Qed.
+Print Assumptions C09_relabelling.
 Theorem C09_cyclic_shift_containment :
   forall (p : vec2 R) (V : list (vec2 R)), inside_polygon Rops p (roll V) = inside_polygon Rops p V.
 Proof. exact inside_polygon_cyclic_shift. Qed.
+Print Assumptions C09_cyclic_shift_containment.
 Theorem C09_form_factor_phase :
   forall (n q t : vec3 R) (V : list (vec3 R)),
     polygon_ff n q (map (fun v => vadd Rops v t) V) = cmul (cexp_i (- vdot Rops q t)) (polygon_ff n q V).
 Proof. exact ff_translation. Qed.
+Print Assumptions C09_form_factor_phase.
 
 (* second moments transform as tensors under EVERY linear map, P(M x) = det M * M P(x) M^T, and the inertia tensor about the
    origin rotates with the shape under every orthogonal map: I(M x) = det M * M I(x) M^T (rotations: M I M^T) *)
